@@ -303,16 +303,18 @@ func HeldContinuously(li *LockInfo, path string, mode LockMode, a, b ssa.Instruc
 	if a.Parent() != b.Parent() {
 		return false
 	}
-	// every instruction reachable from a from which b is reachable must hold the lock
+	// every instruction on a path a -> b that does not pass through a again must hold the lock
 	fn := a.Parent()
+	isA := func(in ssa.Instruction) bool { return in == a }
 	reachFromA := map[ssa.Instruction]bool{}
-	PathQuery{Target: func(in ssa.Instruction) bool { reachFromA[in] = true; return false }}.From(fn, a)
+	PathQuery{Target: func(in ssa.Instruction) bool { reachFromA[in] = true; return false }, Avoid: func(in ssa.Instruction) bool { return in == a || in == b }}.From(fn, a)
 	ok := true
 	for in := range reachFromA {
-		if in == b {
+		if in == b || in == a {
 			continue
 		}
-		if !Reaches(in, b) {
+		t, _ := PathQuery{Target: func(x ssa.Instruction) bool { return x == b }, Avoid: isA}.From(fn, in)
+		if t == nil {
 			continue
 		}
 		if li.At(in)[path] < mode {
